@@ -89,6 +89,7 @@ pub fn worker(prop: &str, profile: &str, base: u64, lo: u64, hi: u64, w: u64, nw
         return spawn_worker(prop, base, lo, hi, w, nw);
     }
     let pf = Profile::for_property(profile);
+    let known: Vec<(String, String)> = load_findings().findings.iter().filter(|f| f.status == "known").map(|f| (f.property.clone(), f.code.clone())).collect();
     let sb = Sandbox::new(&format!("w{}", w));
     let mut sum = WorkerSummary::default();
     let mut tk: BTreeSet<u64> = BTreeSet::new();
@@ -135,7 +136,14 @@ pub fn worker(prop: &str, profile: &str, base: u64, lo: u64, hi: u64, w: u64, nw
                 "history": r.log.iter().map(|l| l.chars().take(700).collect::<String>()).collect::<Vec<_>>(),
             }));
         }
+        // A history in which a listed known finding fires is cut there: what else the oracles
+        // say about that invocation would be consequences, not new violations.
+        let is_known = |v: &crate::host::Violation| known.iter().any(|(p, c)| p == v.prop && c == &v.code);
+        let cut = r.violations.iter().any(|(_, v)| is_known(v));
         for (opi, v) in &r.violations {
+            if cut && !is_known(v) {
+                continue;
+            }
             if v.prop == prop {
                 let l = VLine { seed, op: *opi, prop: v.prop.to_string(), code: v.code.clone(), detail: v.detail.clone() };
                 let mut o = out.lock();
@@ -370,7 +378,7 @@ pub fn check(prop: &str, tier: &str) -> i32 {
         let n = crate::bigshape::KINDS * if quick { 1 } else { 3 };
         batches.push(Batch { profile: "C08big".into(), lo: 0, hi: n });
     }
-    if prop == "C16" {
+    if prop == "C16" || prop == "C05" {
         batches.push(Batch { profile: "spawn".into(), lo: 0, hi: env_u64("VERIF_SPAWN_RUNS", if quick { 3000 } else { 60_000 }) });
     }
     let mut total = WorkerSummary::default();
